@@ -21,7 +21,7 @@
 (*  kind "resume"   T.full = uninterrupted sequence, T.j = cut,            *)
 (*                  T.rest = what the resumed generator emitted            *)
 (***************************************************************************)
-EXTENDS Omen, TLCExt, Json, IOUtils
+EXTENDS Omen, TLCExt, Json, IOUtils, SequencesExt
 
 Traces == TLCEval(ndJsonDeserialize(IOEnv.TRACE_FILE))
 NT == Len(Traces)
@@ -32,7 +32,6 @@ T == Traces[tid]
 FnOf(pairs) == [k \in { pairs[i][1] : i \in DOMAIN pairs } |->
                   (LET i == CHOOSE i \in DOMAIN pairs : pairs[i][1] = k IN pairs[i][2])]
 Mod == [n |-> T.m.n, ln |-> T.m.ln, ip |-> FnOf(T.m.ip), cp |-> FnOf(T.m.cp)]
-ToSet(s) == { s[i] : i \in DOMAIN s }
 Lv(x) == IF x = NoLevel THEN -1 ELSE x
 
 (* ---- n-gram tallies (AlphabetLookup.parse) ---- *)
@@ -44,13 +43,24 @@ EpTally(k) == Cardinality({ i \in Valid : SubSeq(T.pws[i], Len(T.pws[i]) - T.n +
 CpTally(c) == Cardinality({ <<i, p>> \in Valid \X (1..T.maxlen) : p + T.n - 1 <= Len(T.pws[i]) /\ SubSeq(T.pws[i], p, p + T.n - 1) = c })
 LnTally(L) == Cardinality({ i \in Valid : Len(T.pws[i]) = L })
 Listed(tab, k) == \E r \in DOMAIN tab : tab[r][1] = k
-NClauses == CASE T.kind = "level" -> 4 [] T.kind = "tables" -> 4 [] T.kind = "agree" -> 4 [] T.kind = "keyspace" -> 3
+(* ---- alphabet (AlphabetGenerator, first pass): the asz most frequent characters of the passwords of at least n      ---- *)
+(* ---- characters; sorted(..., reverse=True) is stable, so ties keep the order in which the characters were first seen ---- *)
+AlphaStream == FlattenSeq(SelectSeq(T.pws, LAMBDA p : Len(p) >= T.n))
+ExpectedAlphabet ==
+   LET st == AlphaStream
+       chars == { st[j] : j \in DOMAIN st }
+       tl == [c \in chars |-> Cardinality({ j \in DOMAIN st : st[j] = c })]
+       fp == [c \in chars |-> CHOOSE j \in DOMAIN st : st[j] = c /\ \A i \in 1..(j - 1) : st[i] # c]
+       srt == SetToSortSeq(chars, LAMBDA a, b : tl[a] > tl[b] \/ (tl[a] = tl[b] /\ fp[a] < fp[b]))
+   IN SubSeq(srt, 1, IF T.asz < Len(srt) THEN T.asz ELSE Len(srt))
+NClauses == CASE T.kind = "level" -> 4 [] T.kind = "tables" -> 5 [] T.kind = "agree" -> 4 [] T.kind = "keyspace" -> 3
               [] T.kind = "resume" -> 1 [] OTHER -> 1
 ClauseName(k) ==
   CASE T.kind = "level"    -> <<"C10_reports_exhaustion", "C10_each_string_once", "C10_only_strings_of_the_level", "C10_none_missing">>[k]
     [] T.kind = "agree"    -> <<"C11_trainer_level", "C11_scorer_level", "C11_guesser_level", "C11_passwords_per_level">>[k]
     [] T.kind = "keyspace" -> <<"C18_keyspace_is_level_size", "C18_generator_emits_that_many", "C18_saved_probability">>[k]
-    [] T.kind = "tables"   -> <<"C11_initial_ngram_counts_are_tallies", "C11_transition_counts_are_tallies", "C11_end_ngram_counts_are_tallies", "C11_length_counts_are_tallies">>[k]
+    [] T.kind = "tables"   -> <<"C11_initial_ngram_counts_are_tallies", "C11_transition_counts_are_tallies", "C11_end_ngram_counts_are_tallies", "C11_length_counts_are_tallies",
+                                  "I_alphabet_is_the_most_frequent_characters">>[k]
     [] T.kind = "resume"   -> <<"C15_resumes_at_next_guess">>[k]
     [] OTHER               -> <<"C10_generator_raised">>[k]
 ClauseHolds(k) ==
@@ -76,6 +86,7 @@ ClauseHolds(k) ==
                                            InAlpha(SubSeq(T.pws[i], p, p + T.n - 1)) => Listed(T.cpc, SubSeq(T.pws[i], p, p + T.n - 1))
     [] T.kind = "tables" /\ k = 3 -> \A r \in DOMAIN T.epc : T.epc[r][2] = EpTally(T.epc[r][1])
     [] T.kind = "tables" /\ k = 4 -> \A L \in DOMAIN T.lnc : T.lnc[L] = LnTally(L)
+    [] T.kind = "tables" /\ k = 5 -> T.alpha = ExpectedAlphabet
     [] T.kind = "resume" -> T.rest = SubSeq(T.full, T.j + 1, Len(T.full))
     [] OTHER -> FALSE
 
